@@ -117,8 +117,9 @@ func newAPI(w *world) *apifu.API {
 		}})
 	cfg.AddQueryField("big", &graphql.FieldDefinition{Type: graphql.StringType, Arguments: nArg,
 		Resolve: func(ctx graphql.FieldContext) (interface{}, error) {
-			w.addExec(sexp.T("exec", sexp.Int(argN(ctx))))
-			return bigString, nil
+			n := argN(ctx)
+			w.addExec(sexp.T("exec", sexp.Int(n)))
+			return fmt.Sprintf("%d:", n) + bigString, nil
 		}})
 	cfg.AddMutation("m", &graphql.FieldDefinition{Type: graphql.IntType, Arguments: nArg,
 		Resolve: func(ctx graphql.FieldContext) (interface{}, error) {
@@ -198,6 +199,12 @@ type Script struct {
 	End     string  // client-close drop drop-rst app-close
 	Barrier bool    // flush with a barrier query before the ending (always for client-close / drop)
 	Flood   int     // >0: after the labels, send this many big queries without ever reading, wait for the write deadline, then drop
+	// Burst: after the labels, these frames are written back to back without waiting for anything,
+	// followed by Closer (a frame after which the server closes); then the harness reads until the
+	// server's close.  Only stateless frames (queries, mutations, invalid documents, pings, ignored
+	// frames): their resolver calls are attributed to their labels by the echoed operation number.
+	Burst  []Label
+	Closer *Label
 }
 
 type Result struct {
@@ -523,6 +530,10 @@ func runConversation(tag string, sc Script) (res Result) {
 	}
 	if !cv.noRead {
 		startReader()
+		// Dial returns when the client has the handshake response; the server registers the
+		// connection and starts its loops after writing it.  One ping / pong makes sure the read
+		// loop is running (so the connection is registered) before anything else happens.
+		cv.syncReader()
 	}
 	for _, l := range sc.Labels {
 		if cv.term {
@@ -546,6 +557,44 @@ func runConversation(tag string, sc Script) (res Result) {
 				break
 			}
 			doSrcEnd(l)
+		}
+	}
+	if sc.Closer != nil && !cv.term {
+		flush()
+		w.takeExecs()
+		first := len(performed)
+		all := append(append([]Label(nil), sc.Burst...), *sc.Closer)
+		for _, l := range all {
+			n := len(performed)
+			performed = append(performed, l)
+			cv.log = append(cv.log, sexp.T("sent", sexp.Int(n)))
+			data, binary := l.wire(n)
+			mt := websocket.TextMessage
+			if binary {
+				mt = websocket.BinaryMessage
+			}
+			c.SetWriteDeadline(time.Now().Add(waitT))
+			if err := c.WriteMessage(mt, data); err != nil {
+				break
+			}
+		}
+		cv.waitTerm("close-after-burst")
+		// resolver calls of the burst, by the operation number they echo
+		byN := map[int][]sexp.Node{}
+		for _, e := range w.takeExecs() {
+			if len(e.List) == 2 && e.List[1].Kind == 'z' {
+				n := int(e.List[1].Int.Int64())
+				byN[n] = append(byN[n], e)
+			} else {
+				byN[-1] = append(byN[-1], e)
+			}
+		}
+		for n := first; n < len(performed); n++ {
+			es := byN[n]
+			if n == first {
+				es = append(byN[-1], es...)
+			}
+			obs = append(obs, sexp.T("obs", sexp.T("execs", es...), sexp.T("stops", w.stopCounts()...)))
 		}
 	}
 	if sc.Flood > 0 && !cv.term {
